@@ -124,6 +124,15 @@ func (c msgCase) lib() *llmnr.Message {
 	return m
 }
 
+// libCounted is lib() with the four header counts filled in by the caller, as Message.Validate
+// wants them. (lib() itself leaves them zero: the encoder takes the counts from the slices. Whether
+// Encode also stores them in the caller's struct is not something the property speaks about.)
+func (c msgCase) libCounted() *llmnr.Message {
+	m := c.lib()
+	m.QDCount, m.ANCount, m.NSCount, m.ARCount = uint16(len(m.Questions)), uint16(len(m.Answers)), uint16(len(m.Authority)), uint16(len(m.Additional))
+	return m
+}
+
 // sameName: the root name may be written "" or "." (DESIGN C09).
 func sameName(got string, want jName) bool {
 	if len(want) == 0 {
@@ -480,9 +489,9 @@ func checkRoundtrip(c msgCase) []vf.Finding {
 	}
 	fs := compareLib("DecodeMessage(Encode(m))", got, c)
 	// Validate (header counts equal the slices, names within the label/name limits) holds for the
-	// message Encode has just recomputed the counts of, and for what DecodeMessage returns for it
-	if err := m.Validate(); err != nil {
-		fs = append(fs, vf.F("Message.Validate", "valid-message-rejected", "after Encode: %v", err))
+	// message with its counts filled in by the caller, and for what DecodeMessage returns for it
+	if err := c.libCounted().Validate(); err != nil {
+		fs = append(fs, vf.F("Message.Validate", "valid-message-rejected", "message with counts set to the section lengths: %v", err))
 	}
 	if err := got.Validate(); err != nil {
 		fs = append(fs, vf.F("Message.Validate", "valid-message-rejected", "decoded message: %v", err))
@@ -719,66 +728,99 @@ type apiCase struct {
 	Ops   []apiOp `json:"ops"`
 }
 
-// model: the content the calls are documented to produce. AddQuestion appends the question,
-// AddAnswer the record; AddAnswerClassINTypeA/AAAA append {name, A/AAAA, IN, TTL 30, address} and,
-// when no question carries that name yet, first a question {name, A/AAAA, IN}.
-func (c apiCase) model() msgCase {
-	m := msgCase{ID: c.ID, Flags: c.Flags}
-	for _, op := range c.Ops {
-		switch op.Kind {
-		case "question":
-			m.Questions = append(m.Questions, jQ{op.Name, op.Type, op.Class})
-		case "answer":
-			r := op.RR
-			r.Name, r.Type, r.Class = op.Name, op.Type, op.Class
-			m.Answers = append(m.Answers, r)
-		default:
-			typ := llmnr.TypeA
-			if op.Kind == "aaaa" {
-				typ = llmnr.TypeAAAA
-			}
-			found := false
-			for _, q := range m.Questions {
-				if q.Name.text() == op.Name.text() {
-					found = true
-				}
-			}
-			if !found {
-				m.Questions = append(m.Questions, jQ{op.Name, typ, llmnr.ClassIN})
-			}
-			m.Answers = append(m.Answers, jRR{Name: op.Name, Type: typ, Class: llmnr.ClassIN, TTL: 30, RData: op.RR.RData})
+// nameOf turns a name as the library holds it (dot-joined labels, the root as "" or ".") back
+// into labels.
+func nameOf(s string) jName {
+	if s == "" || s == "." {
+		return jName{}
+	}
+	n := jName{}
+	for _, l := range strings.Split(s, ".") {
+		n = append(n, vf.Hex(l))
+	}
+	return n
+}
+
+// built is the content of a message as it stands after the Add* calls (a deep copy, taken before
+// Encode): whatever questions and records the helpers put into the four sections. id and flags
+// are the ones the caller set.
+func built(m *llmnr.Message, id, flags uint16) msgCase {
+	c := msgCase{ID: id, Flags: flags}
+	for _, q := range m.Questions {
+		c.Questions = append(c.Questions, jQ{nameOf(q.Name), q.Type, q.Class})
+	}
+	conv := func(in []llmnr.ResourceRecord) []jRR {
+		var out []jRR
+		for _, r := range in {
+			out = append(out, jRR{Name: nameOf(r.Name), Type: r.Type, Class: r.Class, TTL: r.TTL, RData: append(vf.Hex{}, r.RData...)})
+		}
+		return out
+	}
+	c.Answers, c.Authority, c.Additional = conv(m.Answers), conv(m.Authority), conv(m.Additional)
+	return c
+}
+
+func countQ(qs []llmnr.Question, name string, typ, class uint16) (n int) {
+	for _, q := range qs {
+		if q.Name == name && q.Type == typ && q.Class == class {
+			n++
 		}
 	}
-	return m
+	return
+}
+
+// countRR counts the records with the given name, type, class and data (and TTL, when ttl >= 0).
+func countRR(rs []llmnr.ResourceRecord, name string, typ, class uint16, ttl int64, data []byte) (n int) {
+	for _, r := range rs {
+		if r.Name == name && r.Type == typ && r.Class == class && (ttl < 0 || int64(r.TTL) == ttl) && bytes.Equal(r.RData, data) {
+			n++
+		}
+	}
+	return
 }
 
 func checkBuildAPI(c apiCase) []vf.Finding {
 	m := llmnr.NewMessage()
 	m.ID, m.Flags = c.ID, c.Flags
+	var fs []vf.Finding
 	for i, op := range c.Ops {
-		var err error
 		var who string
+		var call func() error
+		// what the call is asked to add has to be in its section afterwards, once more than before
+		var count func() int
+		name := op.Name.text()
 		switch op.Kind {
 		case "question":
-			who, err = "Message.AddQuestion", m.AddQuestion(op.Name.text(), op.Type, op.Class)
+			who, call = "Message.AddQuestion", func() error { return m.AddQuestion(name, op.Type, op.Class) }
+			count = func() int { return countQ(m.Questions, name, op.Type, op.Class) }
 		case "answer":
 			r := op.RR
 			r.Name, r.Type, r.Class = op.Name, op.Type, op.Class
-			who, err = "Message.AddAnswer", m.AddAnswer(r.lib())
+			data := r.data()
+			who, call = "Message.AddAnswer", func() error { return m.AddAnswer(r.lib()) }
+			count = func() int { return countRR(m.Answers, name, op.Type, op.Class, int64(r.TTL), data) }
 		case "a":
-			who, err = "Message.AddAnswerClassINTypeA", m.AddAnswerClassINTypeA(op.Name.text(), net.IP(op.RR.RData).String())
+			who, call = "Message.AddAnswerClassINTypeA", func() error { return m.AddAnswerClassINTypeA(name, net.IP(op.RR.RData).String()) }
+			count = func() int { return countRR(m.Answers, name, llmnr.TypeA, llmnr.ClassIN, -1, op.RR.RData) }
 		default:
-			who, err = "Message.AddAnswerClassINTypeAAAA", m.AddAnswerClassINTypeAAAA(op.Name.text(), net.IP(op.RR.RData).String())
+			who, call = "Message.AddAnswerClassINTypeAAAA", func() error { return m.AddAnswerClassINTypeAAAA(name, net.IP(op.RR.RData).String()) }
+			count = func() int { return countRR(m.Answers, name, llmnr.TypeAAAA, llmnr.ClassIN, -1, op.RR.RData) }
 		}
+		before := count()
+		err := call()
 		if err != nil {
 			return []vf.Finding{vf.F(who, "valid-name-rejected", "call %d, name %q (%d labels, %d octets on the wire): %v", i, op.Name.text(), len(op.Name), op.Name.ref().WireLen(), err)}
 		}
+		if count() <= before {
+			fs = append(fs, vf.F(who, "added-entry-not-in-message", "call %d (%s, name %q): no new entry with the given name, type, class and data in the section", i, op.Kind, name))
+		}
 	}
-	want := c.model()
-	var fs []vf.Finding
+	// the expected content is the message as built: which further entries the helpers add on their
+	// own (the question implied by an A/AAAA answer) is theirs to decide
+	want := built(m, c.ID, c.Flags)
 	// the Add* calls keep the header counts of the sections they fill
-	if int(m.QDCount) != len(want.Questions) || int(m.ANCount) != len(want.Answers) {
-		fs = append(fs, vf.F("Message.Add*", "header-counts-differ", "QDCOUNT %d ANCOUNT %d after adding %d questions, %d answers", m.QDCount, m.ANCount, len(want.Questions), len(want.Answers)))
+	if int(m.QDCount) != len(m.Questions) || int(m.ANCount) != len(m.Answers) {
+		fs = append(fs, vf.F("Message.Add*", "header-counts-differ", "QDCOUNT %d ANCOUNT %d with %d questions, %d answers in the message", m.QDCount, m.ANCount, len(m.Questions), len(m.Answers)))
 	}
 	if err := m.Validate(); err != nil {
 		fs = append(fs, vf.F("Message.Validate", "valid-message-rejected", "message built by Add*: %v", err))
